@@ -349,14 +349,33 @@ def rule_T5(text):
     return text, fired
 
 
-RULES = {'T1': rule_T1, 'T2': rule_T2, 'T3': rule_T3, 'T5': rule_T5}
+def rule_T10(text):
+    """call through a boxed client closure held in the configuration:
+    `(self.config.NAME)(args)` -> `self.config.NAME.verif_call(args)` (the field's stand-in type has that method)"""
+    mask = code_mask(text)
+    out, last, fired = '', 0, 0
+    for m in re.finditer(r'\(\s*(self\s*\.\s*config\s*\.\s*\w+)\s*\)\s*\(', mask):
+        out += text[last:m.start()] + re.sub(r'\s+', '', m.group(1)) + '.verif_call('
+        last = m.end()
+        fired += 1
+    return out + text[last:], fired
+
+
+RULES = {'T1': rule_T1, 'T2': rule_T2, 'T3': rule_T3, 'T5': rule_T5, 'T10': rule_T10}
 
 
 def rule_T6(body, callees, arg):
     """ghost (erased) argument threaded through calls: `.callee(args)` / `::callee(args)` -> `callee(args, ARG)`"""
     fired = 0
     pos = 0
-    rx = re.compile(r'(?:\.|::)\s*(' + '|'.join(re.escape(c) for c in callees) + r')\s*\(')
+    # a callee entry is a method name (`delete`) or a dotted path suffix (`cache.get`, `self.get`)
+    alts = []
+    for c in callees:
+        if '.' in c:
+            alts.append(r'(?<![\w])' + r'\s*\.\s*'.join(re.escape(x) for x in c.split('.')))
+        else:
+            alts.append(r'(?:\.|::)\s*' + re.escape(c))
+    rx = re.compile(r'(?:' + '|'.join(alts) + r')\s*\(')
     while True:
         mask = code_mask(body)
         m = rx.search(mask, pos)
@@ -367,7 +386,7 @@ def rule_T6(body, callees, arg):
         inner = mask[op + 1:cp].strip()
         ins = (', ' if inner else '') + arg
         body = body[:cp] + ins + body[cp:]
-        pos = cp + len(ins)
+        pos = op + 1            # nested calls inside the argument list are handled too
         fired += 1
     return body, fired
 
@@ -415,6 +434,25 @@ def rule_T7(body, k, header):
     return body[:m.start()] + header.strip() + ' ' + new_body + body[end:], 1
 
 
+def param_list_open(mask):
+    """offset of the `(` opening the parameter list: the first `(` after `fn name` outside the generics"""
+    fm = re.search(r'\bfn\s+\w+', mask)
+    i, depth = fm.end(), 0
+    while i < len(mask):
+        ch = mask[i]
+        if ch == '-' and mask[i:i + 2] == '->':
+            i += 2
+            continue
+        if ch == '<':
+            depth += 1
+        elif ch == '>':
+            depth -= 1
+        elif ch == '(' and depth == 0:
+            return i
+        i += 1
+    raise ExtractError('parameter list not found')
+
+
 # --------------------------------------------------------------------------------------------
 def name_return(sig: str, ret_name: str):
     """`-> T` (before where / end) becomes `-> (ret_name: T)`; returns (sig, where_clause)"""
@@ -432,8 +470,7 @@ def name_return(sig: str, ret_name: str):
         sig = sig[:wm.start()].rstrip()
         mask = mask[:len(sig)]
     # find the parameter list's closing paren
-    fm = re.search(r'\bfn\s+\w+', mask)
-    op = mask.index('(', fm.end())
+    op = param_list_open(mask)
     cp = match_brace(mask, op, '(', ')')
     tail = sig[cp + 1:]
     am = re.match(r'\s*->\s*(.+?)\s*$', tail, re.S)
@@ -481,9 +518,7 @@ def extract_fn(repo: str, spec: dict):
         fired['T7:closure%d' % int(k)] = n
     for gp in spec.get('ghost_params', []):
         mask = code_mask(sig)
-        fm = re.search(r'\bfn\s+\w+', mask)
-        # generics may precede the parameter list
-        op = mask.index('(', fm.end())
+        op = param_list_open(mask)
         cp = match_brace(mask, op, '(', ')')
         inner = mask[op + 1:cp].strip()
         sig = sig[:cp].rstrip().rstrip(',') + ((', ' if inner else '') + gp) + sig[cp:]
